@@ -31,6 +31,7 @@ case "${1:-}" in
   setup)
     build || exit 2
     "$ROOT/scripts/premise_audit.sh" || true
+    "$FAST" selftest || exit 2
     echo "ckc-sim built: $FAST $CHK"
     exit 0
     ;;
